@@ -5,6 +5,8 @@ use crate::models::codec_ref as cr;
 use crate::models::field::{big_to_fr, fr_to_big, p};
 use crate::models::{keccak_ref, poseidon_ref};
 use crate::pipeline::*;
+use crate::models::tree_model::TreeModel;
+use crate::rlnh::new_rln;
 use num_bigint::BigUint;
 use proptest::prelude::*;
 use serde::{Deserialize, Serialize};
@@ -47,6 +49,21 @@ pub enum Mutation {
     /// root sets made of distinguished values: kind 0 = zero entries, 1 = the empty tree's root,
     /// 2 = p-1, 3 = one; `count` copies, optionally with the real root appended
     RootSetSpecial { kind: u8, count: u8, with_root: bool },
+    /// the verifier's own tree changes after the message was produced (and may change back):
+    /// verify_rln_proof is asked after every step
+    VerifierTree(Vec<TOp>),
+}
+
+#[derive(Clone, Copy, Debug, Serialize, Deserialize, PartialEq, Eq)]
+pub enum TOp {
+    /// write a value (pool index; 0 = the default leaf) at a position other than the prover's
+    SetOther(u16, u8),
+    DeleteOther(u16),
+    OverwriteProver(u8),
+    DeleteProver,
+    RestoreProver,
+    /// put back every leaf this case has touched
+    RestoreAll,
 }
 
 #[derive(Clone, Debug, Serialize, Deserialize)]
@@ -150,6 +167,7 @@ fn build(pool: &Pool, c: &Case) -> (Vec<u8>, Vec<u8>) {
             }
             roots = set.iter().flat_map(cr::enc_fr).collect();
         }
+        Mutation::VerifierTree(_) => {}
         Mutation::RootSetSpecial { kind, count, with_root } => {
             let v = match kind % 4 {
                 0 => BigUint::from(0u32),
@@ -177,7 +195,123 @@ fn build(pool: &Pool, c: &Case) -> (Vec<u8>, Vec<u8>) {
     (input, roots)
 }
 
+thread_local! {
+    /// a verifier instance per shard thread holding the pool's tree; every case restores it
+    static VERIFIER: std::cell::RefCell<Option<(rln::public::RLN, TreeModel)>> = const { std::cell::RefCell::new(None) };
+}
+
+fn other_pos(pool: &Pool, g: &Golden, sel: u16) -> usize {
+    let idx = g.req.index;
+    let mut cands: Vec<usize> = vec![idx ^ 1, (idx + 2) % CAP, (idx + CAP / 2) % CAP, 0, CAP - 1];
+    for m in &pool.msgs {
+        if m.req.index != idx {
+            cands.push(m.req.index);
+            cands.push(m.req.index ^ 1);
+        }
+    }
+    cands.push((sel as usize * 7919) % CAP);
+    let p = cands[sel as usize % cands.len()];
+    if p == idx { (idx + 3) % CAP } else { p }
+}
+
+fn run_verifier_tree(pool: &Pool, c: &Case, ops: &[TOp], o: &mut Outcome) {
+    let g = &pool.msgs[c.golden as usize % pool.msgs.len()];
+    let vi = verify_input(&g.msg, &g.signal);
+    let root0 = pool.root.clone();
+    VERIFIER.with(|cell| {
+        let mut slot = cell.borrow_mut();
+        if slot.is_none() {
+            let mut r = new_rln(DEPTH);
+            let mut m = TreeModel::new(DEPTH, ark_bn254::Fr::from(0u64));
+            for x in &pool.msgs {
+                let rc = x.req.rate_commitment();
+                if set_leaf_big(&mut r, x.req.index, &rc).is_err() {
+                    vfail!(o, "cannot build the verifier instance");
+                    return;
+                }
+                m.set(x.req.index, crate::models::field::big_to_fr(&rc));
+            }
+            *slot = Some((r, m));
+        }
+        let (r, m) = slot.as_mut().unwrap();
+        let pristine = m.clone();
+        let mut touched: Vec<usize> = vec![];
+        let mut broken = false;
+        let zero = ark_bn254::Fr::from(0u64);
+        for (k, op) in ops.iter().enumerate() {
+            // apply to the implementation and to the model
+            let mut writes: Vec<(usize, ark_bn254::Fr)> = vec![];
+            match op {
+                TOp::SetOther(sel, v) => writes.push((other_pos(pool, g, *sel), crate::props::trees::pool_value(*v))),
+                TOp::DeleteOther(sel) => writes.push((other_pos(pool, g, *sel), zero)),
+                TOp::OverwriteProver(v) => writes.push((g.req.index, crate::props::trees::pool_value(*v) + ark_bn254::Fr::from(1u64))),
+                TOp::DeleteProver => writes.push((g.req.index, zero)),
+                TOp::RestoreProver => writes.push((g.req.index, pristine.get(g.req.index).unwrap())),
+                TOp::RestoreAll => {
+                    for i in &touched {
+                        writes.push((*i, pristine.get(*i).unwrap()));
+                    }
+                }
+            }
+            for (i, v) in writes {
+                let is_delete = matches!(op, TOp::DeleteOther(_) | TOp::DeleteProver) && i < m.mark;
+                let res = if is_delete { r.delete_leaf(i).map_err(|e| e.to_string()) } else { set_leaf_big(r, i, &fr_to_big(&v)) };
+                if let Err(e) = res {
+                    vfail!(o, "verifier tree step {k} {op:?}: tree operation failed: {e}");
+                    broken = true;
+                    break;
+                }
+                if is_delete { m.delete(i); } else { m.set(i, v); }
+                if !touched.contains(&i) {
+                    touched.push(i);
+                }
+            }
+            if broken {
+                break;
+            }
+            let root_now = fr_to_big(&m.root());
+            let expect = root_now == root0;
+            let v = call_verify_rln(r, &vi);
+            o.evals += 2;
+            if v.is_true() != expect {
+                vfail!(o, "verifier tree step {k} {op:?}: verify_rln_proof returned {v:?} for a message bound to root {root0} while the verifier's tree root is {root_now} ({})", if expect { "same root: must accept" } else { "different root: must reject" });
+                broken = true;
+                break;
+            }
+            if !call_verify_roots(r, &vi, &cr::enc_fr(&root0)).is_true() {
+                vfail!(o, "verifier tree step {k} {op:?}: verify_with_roots [message root] stopped accepting after the verifier's tree changed");
+                broken = true;
+                break;
+            }
+            if !expect {
+                o.nontrivial = true;
+                o.label("verifier-root-differs");
+            } else if k > 0 {
+                o.label("verifier-root-back-to-message-root");
+            }
+        }
+        // restore for the next case
+        if broken {
+            *slot = None;
+        } else {
+            for i in &touched {
+                let v = pristine.get(*i).unwrap();
+                let _ = set_leaf_big(r, *i, &fr_to_big(&v));
+            }
+            *m = pristine;
+            if get_root_big(r) != root0 {
+                vfail!(o, "restoring the touched leaves did not restore the root (see C06)");
+                *slot = None;
+            }
+        }
+    });
+}
+
 fn run(pool: &Pool, c: &Case, o: &mut Outcome) {
+    if let Mutation::VerifierTree(ops) = &c.mutation {
+        run_verifier_tree(pool, c, ops, o);
+        return;
+    }
     let g = &pool.msgs[c.golden as usize % pool.msgs.len()];
     let (input, roots) = build(pool, c);
     let (what, v, acc) = match c.target {
@@ -205,7 +339,7 @@ impl Property for C02 {
         "C02"
     }
     fn rule(&self) -> String {
-        "a pool of accepted messages (C01's generator) x modifications of the decoded message: each of root / external nullifier / x / y / nullifier replaced by +1, -1, another field's value, 0, a random value or the same field of another accepted message; two fields swapped; any single bit of the 128 proof bytes flipped; the proof of another accepted message; signal byte flipped / appended / truncated / emptied / replaced, with and without adjusting the declared length; declared length extended over trailing bytes; root sets without the root, with it at every position, with near-misses root±1, made only of distinguished values (zero entries, the empty tree's root, p-1, 1) with and without the real root, and empty; on verify / verify_rln_proof / verify_with_roots. Fixed part: verifier tree changed after proving (set/delete other leaves, the prover's leaf) and restored. \
+        "a pool of accepted messages (C01's generator) x modifications of the decoded message: each of root / external nullifier / x / y / nullifier replaced by +1, -1, another field's value, 0, a random value or the same field of another accepted message; two fields swapped; any single bit of the 128 proof bytes flipped; the proof of another accepted message; signal byte flipped / appended / truncated / emptied / replaced, with and without adjusting the declared length; declared length extended over trailing bytes; root sets without the root, with it at every position, with near-misses root±1, made only of distinguished values (zero entries, the empty tree's root, p-1, 1) with and without the real root, and empty; on verify / verify_rln_proof / verify_with_roots. Generated VerifierTree cases: up to 7 changes of the verifier's own tree after proving (writes/deletes at the sibling, neighbours, other members, overwriting/deleting/restoring the prover's leaf, restoring everything) with verify_rln_proof after every step: accepted exactly when the ideal tree's root equals the message's root. Fixed part: verifier tree changed after proving (set/delete other leaves, the prover's leaf) and restored. \
          Oracle (computed independently per input): true iff proof+value bytes are the accepted message's, Keccak_ref(declared signal) = carried x and the root condition holds. non-trivial = a modification that breaks exactly one of the three conditions; distinct by case content".into()
     }
     fn assumptions(&self) -> Vec<String> {
@@ -235,6 +369,14 @@ impl Property for C02 {
             1 => any::<u8>().prop_map(Mutation::DeclaredLenLongerWithTail),
             4 => (proptest::option::of(any::<u8>()), any::<u8>(), any::<bool>()).prop_map(|(with_root_at, others, near_miss)| Mutation::RootSet { with_root_at, others, near_miss }),
             2 => (0u8..4, any::<u8>(), any::<bool>()).prop_map(|(kind, count, with_root)| Mutation::RootSetSpecial { kind, count, with_root }),
+            1 => proptest::collection::vec(prop_oneof![
+                    4 => (any::<u16>(), 0u8..6).prop_map(|(s, v)| TOp::SetOther(s, v)),
+                    2 => any::<u16>().prop_map(TOp::DeleteOther),
+                    1 => (0u8..6).prop_map(TOp::OverwriteProver),
+                    1 => Just(TOp::DeleteProver),
+                    2 => Just(TOp::RestoreProver),
+                    2 => Just(TOp::RestoreAll),
+                ], 1..8).prop_map(Mutation::VerifierTree),
         ];
         let target = prop_oneof![1 => Just(Target::Verify), 3 => Just(Target::VerifyRln), 3 => Just(Target::VerifyRoots)];
         (any::<u8>(), target, mutation).prop_map(|(golden, target, mutation)| Case { golden, target, mutation }).boxed()
